@@ -53,7 +53,8 @@ fn check_implicit_sort(ctx: &mut Ctx) {
         let (aggs, cols): (&str, Vec<&str>) = r.pick(&[("count", vec!["_count"]), ("count, sum(n)", vec!["_count", "_sum"]), ("sum(m) as s, count as c", vec!["s", "c"]), ("max(n) as hi", vec!["hi"])]).clone();
         let keys = if ts { *r.pick(&["_timeslice, k", "k, _timeslice", "_timeslice", "_timeslice, k, n"]) } else { *r.pick(&["k", "k, n", "n"]) };
         let agg = format!("{} by {}", aggs, keys);
-        let tail = *r.pick(&["", "", " | limit 1", " | limit 3", " | limit -2", " | limit 2 | limit 1"]);
+        // (the implicit order in front of a limit holds whatever comes later — also another sort)
+        let tail = *r.pick(&["", "", " | limit 1", " | limit 3", " | limit -2", " | limit 2 | limit 1", " | limit 2 | sort by k", " | limit 1 | sort", " | limit -2 | where 1 == 1 | sort by k desc", " | limit 3 | fields except nosuch | sort by k", " | limit 2 | sort by k | count"]);
         let key = ckey(&format!("{} | {}{}", pre, agg, tail), &input);
         match implicit_sort_equiv(&pre, &agg, &cols, ts, tail, &input) {
             None => ctx.case("implicit-sort", &key, "pass", serde_json::json!({"query": format!("{} | {}{}", pre, agg, tail)})),
